@@ -20,6 +20,8 @@ Section Solver.
 Variable F : Type.
 Variables (zero one : F) (add mul sub : F -> F -> F) (opp : F -> F) (div : F -> F -> F) (inv : F -> F).
 Variable eq_dec : forall x y : F, {x = y} + {x <> y}.
+(* a field element read as a table index (Solver.Uint64): None when it does not fit *)
+Variable idx_of : F -> option nat.
 Notation "0" := zero. Notation "1" := one.
 Infix "+" := add. Infix "*" := mul. Infix "-" := sub. Infix "/" := div.
 
@@ -38,7 +40,9 @@ Inductive instr :=
 | IMul (cid : nat) (xa xb xc : nat) (qm : F)
 | IAdd (cid : nat) (xa xb xc : nat) (ql qr qc : F)
 | IBool (cid : nat) (xa : nat) (ql qm : F)
-| IHint (hid : nat) (ins : list hlexp) (start : nat) (nout : nat).
+| IHint (hid : nat) (ins : list hlexp) (start : nat) (nout : nat)
+(* BlueprintLookupHint: the first [length entries] entries of the table, the queries, the first output wire *)
+| ILookup (entries : list hlexp) (ins : list hlexp) (start : nat).
 
 Definition set (v : vals) (x : nat) (y : F) : vals := fun z => if Nat.eqb z x then Some y else v z.
 
@@ -174,6 +178,28 @@ Definition step_hint (orc : oracle) (i : nat) (v : vals) (hid : nat) (ins : list
       if ok then Ok v' else Err EHint i
   end.
 
+(* lookup table instruction: output i := entries[ins_i]; a query outside the table is an error *)
+Fixpoint lookup_all (es : list F) (qs : list F) : option (list F) :=
+  match qs with
+  | [] => Some []
+  | q :: qs' =>
+      match idx_of q with
+      | None => None
+      | Some i => match nth_error es i, lookup_all es qs' with
+                  | Some e, Some r => Some (e :: r)
+                  | _, _ => None
+                  end
+      end
+  end.
+
+Definition step_lookup (i : nat) (v : vals) (entries ins : list hlexp) (start : nat) : res vals :=
+  do es <- hev_all v entries;
+  do qs <- hev_all v ins;
+  match lookup_all es qs with
+  | None => Err EOther i
+  | Some outs => set_range v start outs
+  end.
+
 (* ---------------------------------------------------------------- driver *)
 
 Definition step (orc : oracle) (i : nat) (v : vals) (ins : instr) : res vals :=
@@ -184,6 +210,7 @@ Definition step (orc : oracle) (i : nat) (v : vals) (ins : instr) : res vals :=
   | IAdd _ xa xb xc ql qr qc => step_add v xa xb xc ql qr qc
   | IBool cid xa ql qm => step_bool cid v xa ql qm
   | IHint hid ins start nout => step_hint orc i v hid ins start nout
+  | ILookup entries ins start => step_lookup i v entries ins start
   end.
 
 Fixpoint run (orc : oracle) (v : vals) (prog : list (nat * instr)) : res vals :=
@@ -259,6 +286,7 @@ Definition holds (v : vals) (ins : instr) : Prop :=
   | IAdd _ xa xb xc ql qr qc => holds_sparse v xa xb xc ql qr (opp 1) 0 qc
   | IBool _ xa ql qm => holds_sparse v xa xa xa ql 0 0 qm 0
   | IHint _ _ _ _ => True
+  | ILookup _ _ _ => True
   end.
 
 Definition extends (v v' : vals) : Prop := forall x y, v x = Some y -> v' x = Some y.
